@@ -61,6 +61,19 @@ type rsRollout struct {
 	Succeeded       *bool    `json:"succeeded"`
 	Term            string   `json:"term"` // none|inTerminating|completed
 	Sub             *rsSub   `json:"sub"`
+	// IsRealPartition: true = CloneSet workload (partition style / blue-green); false = canary-style Deployment
+	// rollout (workloadRef apps/v1 Deployment + enableExtraWorkloadForCanary). Absent in old lines = true.
+	RealPartition bool `json:"realPartition"`
+}
+
+func (r *rsRollout) UnmarshalJSON(b []byte) error {
+	type plain rsRollout
+	p := plain{RealPartition: true}
+	if err := json.Unmarshal(b, &p); err != nil {
+		return err
+	}
+	*r = rsRollout(p)
+	return nil
 }
 
 type rsWL struct {
@@ -71,6 +84,26 @@ type rsWL struct {
 	InRollback     bool   `json:"inRollback"`
 	Replicas       int    `json:"replicas"`
 	Generation     int    `json:"generation"`
+	// Workload.PodTemplateHash: CloneSet = update revision; canary-style Deployment = hash label of the canary
+	// Deployment's ReplicaSet ("" when there is none). Absent in old lines = canaryRev.
+	PodTemplateHash string `json:"podTemplateHash"`
+}
+
+func (w *rsWL) UnmarshalJSON(b []byte) error {
+	type plain rsWL
+	p := struct {
+		plain
+		PodTemplateHash *string `json:"podTemplateHash"`
+	}{}
+	if err := json.Unmarshal(b, &p); err != nil {
+		return err
+	}
+	*w = rsWL(p.plain)
+	w.PodTemplateHash = w.CanaryRev
+	if p.PodTemplateHash != nil {
+		w.PodTemplateHash = *p.PodTemplateHash
+	}
+	return nil
 }
 
 type rsBR struct {
@@ -94,6 +127,8 @@ type rsWorld struct {
 	BR  *rsBR     `json:"br"`
 	Net trNet     `json:"net"`
 	Mem trMem     `json:"mem"`
+	// concretisation hint (canary-style worlds, podTemplateHash ""): a canary Deployment exists but has no ReplicaSet yet
+	BareCanary bool `json:"bareCanary,omitempty"`
 }
 
 const (
@@ -148,6 +183,9 @@ func rsBuildRollout(r rsRollout) (*v1beta1.Rollout, string) {
 	ro := &v1beta1.Rollout{}
 	ro.Namespace, ro.Name, ro.UID, ro.Generation = trNS, "r", trOwnerUID, 1
 	ro.Spec.WorkloadRef = v1beta1.ObjectRef{APIVersion: "apps.kruise.io/v1alpha1", Kind: "CloneSet", Name: "wl"}
+	if rsdCanaryStyle(r) {
+		ro.Spec.WorkloadRef = v1beta1.ObjectRef{APIVersion: "apps/v1", Kind: "Deployment", Name: "wl"}
+	}
 	var trs []v1beta1.TrafficRoutingRef
 	if r.HasTraffic {
 		trs = []v1beta1.TrafficRoutingRef{{Service: trSvc, GracePeriodSeconds: int32(r.Grace),
@@ -156,7 +194,8 @@ func rsBuildRollout(r rsRollout) (*v1beta1.Rollout, string) {
 	if r.Style == "blueGreen" {
 		ro.Spec.Strategy.BlueGreen = &v1beta1.BlueGreenStrategy{Steps: rsSteps(r.Steps), TrafficRoutings: trs, DisableGenerateCanaryService: r.DisableGen}
 	} else {
-		ro.Spec.Strategy.Canary = &v1beta1.CanaryStrategy{Steps: rsSteps(r.Steps), TrafficRoutings: trs, DisableGenerateCanaryService: r.DisableGen}
+		ro.Spec.Strategy.Canary = &v1beta1.CanaryStrategy{Steps: rsSteps(r.Steps), TrafficRoutings: trs, DisableGenerateCanaryService: r.DisableGen,
+			EnableExtraWorkloadForCanary: rsdCanaryStyle(r)}
 	}
 	ro.Spec.Strategy.Paused = r.Paused
 	ro.Spec.Disabled = r.Disabled
@@ -285,7 +324,7 @@ func rsBuildBR(b *rsBR, ro *v1beta1.Rollout) *v1beta1.BatchRelease {
 	br := &v1beta1.BatchRelease{}
 	br.Namespace, br.Name, br.UID, br.Generation = trNS, "r", "br-uid", 1
 	br.OwnerReferences = []metav1.OwnerReference{*metav1.NewControllerRef(ro, v1beta1.SchemeGroupVersion.WithKind("Rollout"))}
-	br.Spec.WorkloadRef = v1beta1.ObjectRef{APIVersion: "apps.kruise.io/v1alpha1", Kind: "CloneSet", Name: "wl"}
+	br.Spec.WorkloadRef = v1beta1.ObjectRef{APIVersion: ro.Spec.WorkloadRef.APIVersion, Kind: ro.Spec.WorkloadRef.Kind, Name: "wl"}
 	for _, e := range b.Batches {
 		br.Spec.ReleasePlan.Batches = append(br.Spec.ReleasePlan.Batches, v1beta1.ReleaseBatch{CanaryReplicas: *iosFromAny(e)})
 	}
@@ -295,6 +334,7 @@ func rsBuildBR(b *rsBR, ro *v1beta1.Rollout) *v1beta1.BatchRelease {
 	br.Spec.ReleasePlan.RolloutID = b.RolloutID
 	br.Spec.ReleasePlan.FinalizingPolicy = v1beta1.FinalizingPolicyType(b.Policy)
 	br.Spec.ReleasePlan.RollingStyle = ro.Spec.Strategy.GetRollingStyle()
+	br.Spec.ReleasePlan.EnableExtraWorkloadForCanary = rsExtraWorkload(ro)
 	if !b.SpecOther {
 		ft := *iosFromAny(J{"i": 1})
 		br.Spec.ReleasePlan.FailureThreshold = &ft
@@ -344,9 +384,14 @@ func rsAbstractBR(br *v1beta1.BatchRelease, ro *v1beta1.Rollout) *rsBR {
 		b.Partition = &p
 	}
 	b.SpecOther = br.Spec.ReleasePlan.FailureThreshold == nil && br.Spec.ReleasePlan.RollingStyle == ro.Spec.Strategy.GetRollingStyle() &&
-		!br.Spec.ReleasePlan.EnableExtraWorkloadForCanary && br.Spec.ReleasePlan.PatchPodTemplateMetadata == nil &&
-		br.Spec.WorkloadRef.Name == "wl"
+		br.Spec.ReleasePlan.EnableExtraWorkloadForCanary == rsExtraWorkload(ro) && br.Spec.ReleasePlan.PatchPodTemplateMetadata == nil &&
+		br.Spec.WorkloadRef == v1beta1.ObjectRef{APIVersion: ro.Spec.WorkloadRef.APIVersion, Kind: ro.Spec.WorkloadRef.Kind, Name: "wl"}
 	return b
+}
+
+// what createBatchRelease copies into spec.releasePlan.enableExtraWorkloadForCanary
+func rsExtraWorkload(ro *v1beta1.Rollout) bool {
+	return ro.Spec.Strategy.Canary != nil && ro.Spec.Strategy.Canary.EnableExtraWorkloadForCanary
 }
 
 func rsAbstractRollout(ro *v1beta1.Rollout, in rsRollout, hash string) rsRollout {
@@ -420,17 +465,19 @@ func rsAbstractRollout(ro *v1beta1.Rollout, in rsRollout, hash string) rsRollout
 
 func rsPhaseStr(p string) string { return p }
 
-func rsRun(in rsWorld) interface{} {
+func rsRun(in0 rsWorld) interface{} {
+	in := rsdConcretise(in0) // canary-style worlds: revision names become the pod-template hashes the finder reports
 	ro, hash := rsBuildRollout(in.Ro)
 	objs := []client.Object{ro}
 	if in.WL != nil {
-		objs = append(objs, rsBuildCloneSet(in.WL))
+		objs = append(objs, rsdBuildWorkload(in)...)
 	}
 	if in.BR != nil {
 		objs = append(objs, rsBuildBR(in.BR, ro))
 	}
 	netCli := trBuildWith(in.Net, objs...)
 	netCli.Log = nil
+	finderDiff := rsdFinderCheck(netCli, ro, in.Ro, in.WL)
 	canaryKey := trNS + "/" + trSvc + "-canary"
 	trSetMem(in.Mem, canaryKey)
 	old := rolloutctl.VerifSetGracePeriodSeconds(trLongGrace)
@@ -438,6 +485,9 @@ func rsRun(in rsWorld) interface{} {
 	rec := rolloutctl.VerifNewReconciler(netCli, theScheme)
 	res, err := rec.Reconcile(context.TODO(), ctrl.Request{NamespacedName: types.NamespacedName{Namespace: trNS, Name: "r"}})
 	out := J{"requeue": res.RequeueAfter > 0 || res.Requeue, "err": err != nil}
+	if finderDiff != "" {
+		out["finderMismatch"] = finderDiff // the concretised workload is not the generated one: shows up as a difference
+	}
 	w := J{}
 	got := &v1beta1.Rollout{}
 	if e := netCli.Get(context.TODO(), types.NamespacedName{Namespace: trNS, Name: "r"}, got); e != nil {
@@ -451,12 +501,11 @@ func rsRun(in rsWorld) interface{} {
 		out["roGone"] = false
 		w["ro"] = rsAbstractRollout(got, in.Ro, hash)
 	}
-	cs := &kruisev1alpha1.CloneSet{}
-	if e := netCli.Get(context.TODO(), types.NamespacedName{Namespace: trNS, Name: "wl"}, cs); e != nil {
+	if anno, found := rsdWorkloadAnno(netCli, in.Ro); !found {
 		w["wl"] = nil
 	} else {
 		wl := *in.WL
-		_, wl.InProgressAnno = cs.Annotations[util.InRolloutProgressingAnnotation]
+		wl.InProgressAnno = anno
 		w["wl"] = wl
 	}
 	br := &v1beta1.BatchRelease{}
@@ -467,6 +516,7 @@ func rsRun(in rsWorld) interface{} {
 	}
 	w["net"] = trAbstract(netCli)
 	w["mem"] = trGetMem(canaryKey)
+	rsdAbstractWorld(in.Ro, w)
 	out["w"] = w
 	var writes []string
 	for _, r := range netCli.Log {
@@ -657,7 +707,18 @@ func genRolloutWorld(c *Ctx) rsWorld {
 		n = trNet{StableExists: true, StableIngress: true}
 	}
 	m := trMem{trExp[c.Rng.Intn(4)], trExp[c.Rng.Intn(4)], trExp[c.Rng.Intn(4)], trExp[c.Rng.Intn(4)], trExp[c.Rng.Intn(4)]}
-	return rsWorld{Ro: ro, WL: wl, BR: br, Net: n, Mem: m}
+	w := rsWorld{Ro: ro, WL: wl, BR: br, Net: n, Mem: m}
+	w.Ro.RealPartition = true
+	if w.WL != nil {
+		w.WL.PodTemplateHash = w.WL.CanaryRev
+	}
+	// about a third of all worlds: canary-style Deployment rollouts (suite_rolloutsm_deploy.go)
+	if style == "canary" && c.Rng.Intn(2) == 0 {
+		rsdGenCanaryStyle(c, &w)
+	} else if style == "canary" && c.Rng.Intn(8) == 0 {
+		rsdFocusFirstStep(c, &w)
+	}
+	return w
 }
 
 func runRolloutSM(c *Ctx) {
